@@ -263,7 +263,7 @@ pub fn run(report: &Report, tier: &Tier) {
     let seed = report.seed;
     // L3 sweep
     let deltas: Vec<u64> = (0..900).step_by(50).chain(900..=1100).chain((1150..=2000).step_by(50)).collect();
-    let reps: u64 = if tier.thorough { 40 } else { 3 };
+    let reps: u64 = if tier.thorough { 120 } else { 3 };
     let n = deltas.len() as u64 * reps;
     run_parallel(report, n, threads(), tier.budget_s * 0.2, |i, l| {
         crate::props::c11w::l3_case(deltas[(i % deltas.len() as u64) as usize], util::mix(seed, 0xC11_3000 + i), l);
@@ -273,11 +273,11 @@ pub fn run(report: &Report, tier: &Tier) {
     run_parallel(report, n, threads(), tier.budget_s * 0.1, |i, l| {
         crate::props::c11w::l3_unique_case(deltas[(i % deltas.len() as u64) as usize] + 200, util::mix(seed, 0xC11_3800 + i), l);
     });
-    let n: u64 = if tier.thorough { 60_000 } else { 1_500 };
+    let n: u64 = if tier.thorough { 200_000 } else { 1_500 };
     run_parallel(report, n, threads(), tier.budget_s * 0.2, |i, l| {
         crate::props::c11w::l2_case(util::mix(seed, 0xC11_2000 + i), l);
     });
-    let n: u64 = if tier.thorough { 60_000 } else { 1_500 };
+    let n: u64 = if tier.thorough { 200_000 } else { 1_500 };
     run_parallel(report, n, threads(), tier.budget_s * 0.25, |i, l| {
         crate::props::c11w::l1_case(util::mix(seed, 0xC11_1000 + i), l);
     });
